@@ -672,8 +672,19 @@ def run(ctx):
                              % (state_mismatch,), tags + ["state-mismatch"], m, False)
                 if verdict != "VALID":
                     stats["tt_validator_rejects"] += 1
+                    # recorded finding C28-F28w-empty-duration: the compiled action has no precondition saying that the
+                    # (fluent-dependent) duration interval is non-empty in the state in which the step is applied
+                    empty = False
+                    for (ai_, param_, st_) in steps:
+                        a_ = spec["acts"][ai_]
+                        if a_["kind"] == "dur":
+                            lo_, hi_ = eval_bound(a_["lo"], st_, param_), eval_bound(a_["hi"], st_, param_)
+                            if lo_ is not None and hi_ is not None and (lo_ > hi_ or (lo_ == hi_ and (a_["lopen"] or a_["ropen"]))):
+                                empty = True
+                    stats["tt_validator_rejects_empty_duration_interval"] += empty
                     ctx.fail("validator", "C28: the converted plan of a valid compiled plan is not accepted by "
-                             "TimeTriggeredPlanValidator (%s)" % (verdict or exc), tags + ["tt-validator-rejects"], m, True)
+                             "TimeTriggeredPlanValidator (%s)" % (verdict or exc),
+                             tags + ["tt-validator-rejects"] + (["empty-duration-interval", "seq-valid-tt-invalid"] if empty else []), m, True)
                 elif not same_instances:
                     ctx.fail("oracle", "C28: the converted plan lists other action instances than the compiled plan",
                              tags + ["instances"], m, True)
@@ -711,8 +722,17 @@ def run(ctx):
             shown += 1
             model = ctx.coq_show("(model_out c, judge c)", imports=IMPORTS, preamble=pre + "Definition c := %s.\n" % cases[i])
         if i in bad_judge:
+            # an EMPTY duration interval (lower > upper in the state of the step) admits no duration at all: that is the
+            # recorded finding C28-F28w-empty-duration, not a wrong choice of the back conversion
+            empty = False
+            for (ai_, param_, st_) in steps:
+                a_ = spec["acts"][ai_]
+                if a_["kind"] == "dur":
+                    lo_, hi_ = eval_bound(a_["lo"], st_, param_), eval_bound(a_["hi"], st_, param_)
+                    if lo_ is not None and hi_ is not None and (lo_ > hi_ or (lo_ == hi_ and (a_["lopen"] or a_["ropen"]))):
+                        empty = True
             ctx.fail("oracle", "C28: a chosen duration is outside its interval (evaluated in the start state) or the spacing "
-                     "is not strict", tags + ["duration-or-spacing"],
+                     "is not strict", tags + ["duration-or-spacing"] + (["tt-validator-rejects", "empty-duration-interval", "seq-valid-tt-invalid"] if empty else []),
                      dict(m, model=model, python_judge=pj, theorem_or_corr="thm:C28_plan_durations_in_intervals / C28_no_overlap_between_consecutive"),
                      not pj)
         if i in bad_ok:
